@@ -4,9 +4,9 @@ from ..net import *
 
 ID = "C11"
 LEVEL = "model_checking"
-RULE = ("operations {runW (WNTRSimulator), runE (EpanetSimulator), reset (reset_initial_values), copy (deepcopy, continue on the "
+RULE = ("operations {runW (new WNTRSimulator), runWs (WNTRSimulator object of the previous run reused), runE (EpanetSimulator), reset (reset_initial_values), copy (deepcopy, continue on the "
         "copy), reload (write_json/read_json, continue on the reloaded model)}; ALL histories of length <= 3 (quick) / <= 4 "
-        "(thorough) over 13 models carrying: status time controls on a pipe, a pump and a valve; a valve setting control; a pump "
+        "(thorough) over 14 models carrying: status time controls on a pipe, a pump and a valve; a valve setting control; a pump "
         "speed control; tank-level controls; a leak window; a rule with ELSE; PDD; an initially CLOSED pump and an initially "
         "CLOSED / OPEN valve built through the API (no reset after building); a volume-curve tank.  A state is a history prefix "
         "(runtime state of live objects cannot be canonicalised, so prefixes are not merged); every transition replays the history "
@@ -16,7 +16,7 @@ RULE = ("operations {runW (WNTRSimulator), runE (EpanetSimulator), reset (reset_
 ASSUMPTIONS = ["'fresh' = initial model, after reset_initial_values(), after a JSON reload, or a deepcopy of a fresh model",
                "speed controls are only run with EpanetSimulator-supported semantics; WNTRSimulator refusing them (NotImplementedError) is a documented refusal"]
 
-OPS = ["runW", "runE", "reset", "copy", "reload"]
+OPS = ["runW", "runWs", "runE", "reset", "copy", "reload"]      # runWs: WNTRSimulator run on the simulator OBJECT of the previous run
 H = 3600
 
 
@@ -67,6 +67,11 @@ def models():
     M["closed_valve_api"] = s
     s = base(); node(s, "T")["vcurve"] = [[0.0, 0.0], [2.0, 100.0], [4.0, 350.0], [7.0, 600.0]]
     M["vcurve"] = s
+    s = base()
+    s["nodes"].append(J("J3", 2.0, [[0.004, None, None]]))
+    s["links"].append(P("p5", "J2", "J3", status="CLOSED"))
+    s["controls"] = [{"kind": "time", "t": 2 * H, "link": "p5", "value": "OPEN"}, {"kind": "time", "t": 4 * H, "link": "p5", "value": "CLOSED"}]
+    M["isolated_start_and_end"] = s
     s = base(); s["nodes"][0]["head"] = 10.0
     s["links"][0] = PP("p1", "R", "J1", 15000.0)
     s["controls"] = [{"kind": "time", "t": 2 * H, "link": "p1", "attr": "base_speed", "value": 0.8}]
@@ -82,7 +87,19 @@ def cases(tier):
             for h in itertools.product(OPS, repeat=n):
                 # histories that never simulate observe nothing new beyond their prefixes: keep those ending in a run,
                 # and every history of full depth (the invariant is evaluated after every step anyway)
-                if h[-1] not in ("runW", "runE") and n < depth:
+                if h[-1] not in ("runW", "runWs", "runE") and n < depth:
+                    continue
+                # runWs needs an earlier WNTRSimulator run on the same model object (no copy / reload in between)
+                bad = False
+                have = False
+                for o in h:
+                    if o == "runWs" and not have:
+                        bad = True
+                    if o in ("runW", "runWs"):
+                        have = True
+                    if o in ("copy", "reload"):
+                        have = False
+                if bad:
                     continue
                 out.append({"model": name, "ops": list(h)})
     return out
@@ -114,9 +131,17 @@ def first_diff(a, b, path=""):
     return None
 
 
-def run_w(wn, s):
+_SIM = {}
+
+
+def run_w(wn, s, reuse=False):
     import wntr, warnings
-    sim = wntr.sim.WNTRSimulator(wn)
+    if reuse and _SIM.get("wn") is wn:
+        sim = _SIM["sim"]
+    else:
+        sim = wntr.sim.WNTRSimulator(wn)
+    _SIM.clear()
+    _SIM.update(wn=wn, sim=sim)
     with warnings.catch_warnings(record=True) as w:
         warnings.simplefilter("always")
         import scipy.sparse.linalg as spl
@@ -175,7 +200,7 @@ def run_case(c):
         counts["transitions"] += 1
         pre = "after %s" % c["ops"][:i + 1]
         try:
-            if op == "runW":
+            if op in ("runW", "runWs"):
                 if refW == "refused":
                     try:
                         run_w(wn, s)
@@ -184,7 +209,7 @@ def run_case(c):
                         pass
                     fresh = False
                 else:
-                    r = run_w(wn, s)
+                    r = run_w(wn, s, reuse=(op == "runWs"))
                     counts["runs"] += 1
                     if fresh and refW is not None:
                         if r.error:
@@ -229,7 +254,7 @@ def run_case(c):
             cls = re.sub(r"\[[^\]]*\]", "[]", r[0])
             viol.append({"key": "definition-changed:%s:%s" % (op, cls), "what": "%s: to_dict differs from the initial dictionary at %s: %r -> %r" % (pre, r[0], r[1], r[2])})
             break
-    nruns = sum(1 for o in c["ops"] if o in ("runW", "runE"))
+    nruns = sum(1 for o in c["ops"] if o in ("runW", "runWs", "runE"))
     seen, out = set(), []
     for v in viol:
         if v["key"] not in seen:
